@@ -19,7 +19,9 @@ EXPLANATION = (
     "swapping on name strings); C04.2 the exits of charge_conjugate_name are database inversion, id negation through the "
     "bi-map, the verbatim ChargeConj(name) marker, and for PDG names convert-in / recurse / convert-back with the marker on "
     "the ORIGINAL name; C04.3 final-state conjugation maps every name through it and carries the multiplicity unchanged; "
-    "C04.4 mode conjugation forwards the branching fraction, the conjugated final state and all metadata.")
+    "C04.4 mode conjugation forwards the branching fraction, the conjugated final state and all metadata; C04.5 the CDecay "
+    "layer: the conjugating visitor writes into each particle token exactly the conjugate match of that token from this file's "
+    "ChargeConj table (else charge_conjugate_name) and keeps no other state (clauses shared with C03.3-C03.5).")
 NOT_DECIDED = ["involution and PDG-ID consistency over the ~800 EvtGen / ~1000 PDG names: a property of the installed particle data (not applicable to static analysis of this source)",
                "agreement with the CDecay table as an equality of objects"]
 CCN = f"{PUTIL}:charge_conjugate_name"
@@ -28,6 +30,13 @@ CCN = f"{PUTIL}:charge_conjugate_name"
 def run(ctx, ss):
     for r, f in (("C04.1", c04_1), ("C04.2", c04_2), ("C04.2", c04_defaults), ("C04.3", c04_3), ("C04.4", c04_4)):
         ctx.guard(r, f, ss)
+    # C04.5 'agrees with the table CDecay produces': the .dec visitor writes, into each particle token, exactly the
+    # conjugate match of THAT token computed from THIS file's ChargeConj table (falling back to charge_conjugate_name),
+    # and keeps no other state -- the clauses C03.3 / C03.4 / C03.5 decide, shared here
+    from .c03 import c03_3, c03_4, c03_5
+    from .c05 import _as
+    for f in (c03_3, c03_4, c03_5):
+        ctx.guard("C04.5", lambda c, s_, f=f: _as(c, s_, f, "C04.5"), ss)
 
 
 def c04_1(ctx, ss):
